@@ -19,9 +19,8 @@ from . import sched as S
 
 PROP = 'C18'
 LEVEL = 'exploration'
-STEP_UNIT = ('pre-emption points: line events (opcode events in opcode mode) '
-             'inside DocumentTemplate / TreeDisplay / RestrictedPython.Eval, '
-             'plus call-back yields')
+STEP_UNIT = ('pre-emption points: line events inside DocumentTemplate / '
+             'TreeDisplay / RestrictedPython.Eval, plus call-back yields')
 CASE_TIMEOUT = 600
 TIERS = {'quick': (900, 170), 'thorough': (40000, 2400)}
 PROBES = ['compile_race_second_thread_blocked_on_cooklock',
@@ -50,8 +49,9 @@ RULE = ('templates: generator-A programs over every block tag (per-thread '
         'package (not at its start or end); distinct = distinct '
         '(case hash, switch list).')
 ASSUMPTIONS = [
-    'pre-emption granularity is the source line (bytecode instruction in '
-    'opcode mode); C-level operations are atomic under the GIL',
+    'pre-emption granularity is the source line plus a yield inside every '
+    'scripted call-back (opcode tracing crashes CPython 3.12.1 and is not '
+    'used); C-level operations are atomic under the GIL',
     'package-created locks are simulated through the import-time '
     'threading.Lock / RLock factory; locks created elsewhere are real and '
     'never contended (only one worker runs at any instant)',
